@@ -269,15 +269,22 @@ pub fn make_plugins(names: &[&str]) -> Vec<Plugin<'static>> {
 /// the scalars plugin after it was told the extensions a JavaScript schema would carry for these scalar types
 /// (`extensions: { codegenScalarType: ... }`; @nitrogql/core adds `nitrogql:kind`)
 pub fn scalars_plugin_with(extensions: &[(String, serde_yaml::Value)]) -> Plugin<'static> {
-    let mut table: HashMap<String, HashMap<String, serde_yaml::Value>> = HashMap::new();
-    for (ty, codegen) in extensions {
-        let mut m = HashMap::new();
-        m.insert("nitrogql:kind".to_string(), serde_yaml::Value::String("scalar".into()));
-        m.insert("codegenScalarType".to_string(), codegen.clone());
-        table.insert(ty.clone(), m);
-    }
+    scalars_plugin_with_calls(&[extensions.to_vec()])
+}
+
+/// the same, told in several calls: the CLI calls `load_schema_extensions` once per JavaScript schema module
+pub fn scalars_plugin_with_calls(calls: &[Vec<(String, serde_yaml::Value)>]) -> Plugin<'static> {
     let mut p = Plugin::new(Box::<nitrogql_plugin::GraphQLScalarsPlugin>::default());
-    p.load_schema_extensions(nitrogql_plugin::PluginSchemaExtensions { type_extensions: &table });
+    for extensions in calls {
+        let mut table: HashMap<String, HashMap<String, serde_yaml::Value>> = HashMap::new();
+        for (ty, codegen) in extensions {
+            let mut m = HashMap::new();
+            m.insert("nitrogql:kind".to_string(), serde_yaml::Value::String("scalar".into()));
+            m.insert("codegenScalarType".to_string(), codegen.clone());
+            table.insert(ty.clone(), m);
+        }
+        p.load_schema_extensions(nitrogql_plugin::PluginSchemaExtensions { type_extensions: &table });
+    }
     p
 }
 
